@@ -93,7 +93,9 @@ FaceCount(w) == KindSize(w, "face")
 DedupRing(P) ==
   LET keep == SelectSeq([k \in 1..Len(P) |-> k], LAMBDA k : P[k] # P[Nxt(P, k)])
   IN [k \in 1..Len(keep) |-> P[keep[k]]]
-Degenerate(P) == P # <<>> /\ (Len(DedupRing(P)) < 3 \/ Area2(P) = 0)
+\* degenerate = collapsed (fewer than three distinct vertices, or a SIMPLE ring without area); a self-crossing ring whose
+\* signed area happens to cancel (a symmetric bow-tie) is not degenerate, it is invalid - which is decidable
+Degenerate(P) == P # <<>> /\ (Len(DedupRing(P)) < 3 \/ (Area2(P) = 0 /\ IsSimple(DedupRing(P))))
 ValidRing(P) == Len(DedupRing(P)) >= 3 /\ IsSimple(DedupRing(P))
 
 \* a self-intersecting cell is dropped (with a warning)
